@@ -45,6 +45,7 @@ Clause(k) ==
     ELSE \* crash
         IF k.first = "error" /\ k.second = "error" THEN "later-runs-fail-permanently"
         ELSE IF k.first = "error" THEN "later-run-fails"
+        ELSE IF k.hasold /\ k.final = "absent" THEN "entry-stored-before-the-crash-lost"
         ELSE IF k.final = "partial" /\ k.first # "searched" THEN "tree-built-from-partial-entry"
         ELSE IF k.final = "absent" /\ k.first # "searched" THEN "absent-entry-not-searched"
         ELSE IF k.final = "old" /\ k.first \notin {"old", "searched"} THEN "old-entry-lost"
